@@ -3,12 +3,33 @@ Engine H: Gallina model of the state fields of StudyCurrentState / CurrentState 
 attempts (C50Model.v), Coq theorems for every type of field values; tie: the REAL StudyCurrentState.cxx,
 StructureCurrentState.cxx, CurrentState.cxx compiled from /repo, (1) field by field against the model on tagged states
 and random sequences of update / revert / scribbling on end-of-step fields, (2) inside the REAL GenericSolver::execute with a
-fault-injecting scripted behaviour: final state of the faulty run compared bit-wise with a direct run over the accepted steps."""
-import re
+fault-injecting scripted behaviour: final state of the faulty run compared bit-wise with a direct run over the accepted steps.
+Extension: (3) the Newton branch (u1 not empty: 2 unknowns, constant stiffness, several passes per attempt, linear prediction, the
+real acceleration algorithms) with faults at chosen (attempt, pass) and non-convergence within iterMax, faulty vs direct bit-wise;
+(4) every acceleration algorithm of the factory fed with the passes of a rejected attempt and then a new attempt, against a fresh
+object (bit-wise); (5) generated .mtest problems with a fault-injecting mfront behaviour run by the real mtest binary and by an mtest
+compiled from the working tree: the rows of the faulty run equal those of the direct run over the accepted times, bit-wise."""
+import os, re, sys
 from vlib import guarded_main
+sys.path.insert(0, os.path.join(os.path.dirname(os.path.abspath(__file__)), "..", "C48"))
+import mtlib, mtstage
 
+ALGOS = ["Cast3M", "Secant", "AlternateSecant", "AlternateDelta2", "Alternate2Delta", "CrossedSecant", "CrossedDelta2", "Crossed2Delta", "Crossed2Deltabis",
+         "Steffensen", "IronsTuck", "UAnderson", "FAnderson"]
 REPO_SRC = ["mtest/src/GenericSolver.cxx", "mtest/src/Solver.cxx", "mtest/src/StudyCurrentState.cxx",
-            "mtest/src/StructureCurrentState.cxx", "mtest/src/CurrentState.cxx", "mtest/src/Study.cxx", "mtest/src/SolverOptions.cxx"]
+            "mtest/src/StructureCurrentState.cxx", "mtest/src/CurrentState.cxx", "mtest/src/Study.cxx", "mtest/src/SolverOptions.cxx",
+            "mtest/src/AccelerationAlgorithm.cxx", "mtest/src/AccelerationAlgorithmFactory.cxx", "mtest/src/CastemAccelerationAlgorithm.cxx",
+            "mtest/src/SecantAccelerationAlgorithm.cxx", "mtest/src/AlternateSecantAccelerationAlgorithm.cxx",
+            "mtest/src/AlternateDelta2AccelerationAlgorithm.cxx", "mtest/src/Alternate2DeltaAccelerationAlgorithm.cxx",
+            "mtest/src/CrossedSecantAccelerationAlgorithm.cxx", "mtest/src/CrossedDelta2AccelerationAlgorithm.cxx",
+            "mtest/src/Crossed2DeltaAccelerationAlgorithm.cxx", "mtest/src/Crossed2DeltabisAccelerationAlgorithm.cxx",
+            "mtest/src/SteffensenAccelerationAlgorithm.cxx", "mtest/src/IronsTuckAccelerationAlgorithm.cxx",
+            "mtest/src/UAndersonAccelerationAlgorithm.cxx", "mtest/src/FAndersonAccelerationAlgorithm.cxx"]
+# Crossed2Deltabis keeps the last iterate of whatever ran before (csa_x2) and uses it as X{n-2} at pass 3: after a rejected attempt the accepted
+# results (and even the steps accepted) differ from the direct run (finding, props/C50/fix_crossed2deltabis_history.diff)
+K_STALE = "acc:%s:stale-history"
+K_STALE_RUN = "nrun:%s:stale-history-changes-accepted-results"
+NSF = ["u_1[0]", "u_1[1]", "u0[0]", "u0[1]", "u1[0]", "u1[1]", "u10[0]", "u10[1]", "dt_1", "period", "iterations", "subSteps"]
 LIBS = ["-lTFELMTest", "-lTFELMathParser", "-lTFELMathKriging", "-lTFELMath", "-lTFELUtilities", "-lTFELException",
         "-lTFELTests", "-lTFELSystem", "-lMFrontLogStream"]
 SFIELDS = ["u_1", "u0", "u1", "u10", "dt_1", "period", "iterations", "subSteps"]
@@ -44,7 +65,10 @@ def main(c):
               "files not listed in the driver's repo_sources come from the libraries built in /repo/_build",
               "the list of fields read by an attempt (all but e0/e1/iterations/subSteps) was established by reading MTest::prepare, "
               "SingleStructureScheme and the behaviour wrappers, it is not extracted mechanically",
-              "the real Newton iteration (`iterate`, u1 non empty) and real behaviours are not executed by this check")
+              "Newton branch: scripted two-unknown Study (constant stiffness, history dependent non linear law written in the driver); acceleration algorithms "
+              "compiled from the working tree and taken from the real factory",
+              "mtest stage: the mfront and mtest binaries of /repo/_build, g++ for the generated behaviours, the `tree mtest` of props/C48/mtlib.py (MTestMain.cxx, MTest.cxx, "
+              "GenericSolver.cxx, StudyCurrentState.cxx ... compiled from the working tree in front of libTFELMTest.so), result file parser")
     rng = c.rng
     # ---------------------------------------------------------------- (1) field level
     cases = []
@@ -149,14 +173,202 @@ def main(c):
                      {"steps": steps, "mSubSteps": msub, "script": script, "accepted": acc, "faulty": faulty[i], "direct": line2}, True)
         if i == 0:
             c.sample({"run": {"steps": steps, "script": script}, "faulty": faulty[i][:300], "direct": line2[:300]})
+    c.log("field level and iterate2 branch done")
+    na, stale_algos = stage_accel(c, exe)
+    c.log("acceleration algorithms done")
+    nn = stage_newton(c, exe, stale_algos)
+    c.log("Newton branch done")
+    nm = stage_mtest(c)
+    c.log("mtest stage done")
     c.coverage["rule"] = ("seeded (VERIF_SEED). Field level: %d tagged states (1-3 integration points, all 5+12n fields distinct) x 1-8 operations among update(dt) / "
                           "revert / write into one end-of-step field, every field compared with the model. Solver level: %d runs of 1-3 requested steps with "
                           "mSubSteps 3/5/8 and scripted failures (15%%/35%% of up to 14 attempts, nested bisection), %d rejected attempts in total, final state "
-                          "compared bit-wise with the direct run. non-trivial = contains a revert / at least one rejected attempt" % (len(cases), len(runs), nrej))
-    c.coverage["traces_validated_against_impl"] = len(cases) + len(idxs)
-    r = c.coq(["C50Model.v", "C50Proofs.v", "Properties_C50.v"], timeout=600)
+                          "compared bit-wise with the direct run. Newton branch: %d runs (2 unknowns, 2 points, iterMax 4..12, with/without linear prediction, no / each of the 13 "
+                          "acceleration algorithms, faults at chosen (attempt, pass) and non-convergence), %d rejected attempts, %d runs compared bit-wise with the direct run. "
+                          "Acceleration algorithms: %d stale-vs-fresh comparisons over the 13 algorithms of the factory. mtest: %d generated problems x 2 binaries, %d faulty runs with "
+                          "%d rejected attempts compared row by row, bit-wise, with the direct run over the accepted times. non-trivial = contains a revert / at least one rejected attempt" % (
+                              len(cases), len(runs), nrej, nn[0], nn[1], nn[2], na, nm[0], nm[1], nm[2]))
+    c.coverage["traces_validated_against_impl"] = len(cases) + len(idxs) + nn[2] + na + nm[1]
+    r = c.coq(["C50Model.v", "C50Proofs.v", "C50Accel.v", "Properties_C50.v"], timeout=600)
     if not r.ok:
         c.coq_failures(r)
+
+
+def stage_newton(c, exe, stale_algos):
+    """the Newton branch of GenericSolver::execute with faults, faulty vs direct"""
+    rng = c.rng
+    reported, nrep = set(), 0
+    runs = [(6, 6, 0, "none", [(0.0, 1.0)], [(1, 3)]),            # the behaviour fails at pass 3 of the first attempt: u10 != u0 when revert() is called
+            (6, 3, 0, "none", [(0.0, 2.0)], []),                  # non-convergence within iterMax = 3 passes
+            (8, 8, 1, "Cast3M", [(0.0, 1.0), (1.0, 3.0)], [(2, 5), (4, 2)]),
+            (6, 6, 0, "Crossed2Deltabis", [(0.0, 1.0), (1.0, 5.0)], [(2, 3), (4, 4), (10, 5)])]
+    for k in range(c.pick(150, 1200)):
+        itmax = rng.choice([3, 4, 6, 8, 12])
+        t, steps = 0.0, []
+        for _ in range(rng.randint(1, 3)):
+            d = rng.choice([0.5, 1.0, 2.0, 4.0])
+            steps.append((t, t + d))
+            t += d
+        faults = sorted(set((rng.randint(1, 12), rng.randint(1, min(itmax, 5))) for _ in range(rng.choice([0, 1, 1, 2, 3]))))
+        runs.append((rng.choice([5, 6, 8]), itmax, int(rng.random() < 0.5), rng.choice(["none"] * 4 + ALGOS), steps, faults))
+    line = lambda msub, itmax, lp, alg, steps, faults: "NRUN %d %d %d %s %d %s %d %s" % (
+        msub, itmax, lp, alg, len(steps), " ".join("%s %s" % (a.hex(), b.hex()) for a, b in steps), len(faults), " ".join("%d %d" % f for f in faults))
+    rc, out, err = c.run([exe], input="\n".join(line(*r) for r in runs) + "\n", timeout=600)
+    res = [l for l in out.splitlines() if l[:2] in ("S ", "X ", "E ")]
+    if rc != 0 or len(res) != len(runs):
+        c.report("driver-newton", "driver failed on the Newton runs (rc=%d, %d answers for %d): %s" % (rc, len(res), len(runs), err[-400:]), {"stderr": err[-3000:]}, False)
+        return (len(runs), 0, 0)
+    direct, idx = [], []
+    for i, (r, l) in enumerate(zip(runs, res)):
+        t = l.split()
+        if t[0] != "S" or t[1] != "done":
+            c.count(1, ("nrun-raise", i), False)
+            continue
+        na = int(t[3])
+        acc = [(float.fromhex(t[4 + 2 * j]), float.fromhex(t[5 + 2 * j])) for j in range(na)]
+        direct.append(line(r[0], r[1], r[2], r[3], [(a, a + d) for a, d in acc], []))
+        idx.append((i, acc))
+    rc, out2, err2 = c.run([exe], input="\n".join(direct) + "\n", timeout=600)
+    res2 = [l for l in out2.splitlines() if l[:2] in ("S ", "X ", "E ")]
+    if rc != 0 or len(res2) != len(direct):
+        c.report("driver-newton2", "driver failed on the direct Newton runs: " + err2[-400:], {"stderr": err2[-3000:]}, False)
+        return (len(runs), 0, 0)
+    names = NSF + ["point%d.%s" % (p, f) for p in range(2) for f in CFIELDS]
+    nrej = 0
+    for (i, acc), l2 in zip(idx, res2):
+        msub, itmax, lp, alg, steps, faults = runs[i]
+        f, d = res[i].split(), l2.split()
+        df, dd = f[f.index("D") + 1:], d[d.index("D") + 1:]
+        rejected = int(df[names.index("subSteps")])
+        nrej += rejected
+        c.count(1, ("nrun", msub, itmax, lp, alg, tuple(steps), tuple(faults)), rejected > 0)
+        diff = [n for n, a, b in zip(names, df, dd) if a != b and n not in ("iterations", "subSteps")]
+        acc2 = [(float.fromhex(d[4 + 2 * j]), float.fromhex(d[5 + 2 * j])) for j in range(int(d[3]))] if d[1] == "done" else None
+        val = lambda x: float.fromhex(x) if "x" in x else float(x)
+        if (diff or acc2 != acc) and alg in stale_algos:
+            # an algorithm observed (stage_accel) to read the history of a rejected attempt: one report under a stable key
+            if alg not in reported:
+                reported.add(alg)
+                c.report(K_STALE_RUN % alg, "GenericSolver::execute, Newton branch, acceleration %s over %r (iterMax=%d, mSubSteps=%d, %s) with the behaviour failing at (attempt, pass) %r "
+                         "accepted the steps %r after %d rejections; a direct run over these steps %s: the algorithm reads the iterates left by the rejected attempt" % (
+                             alg, steps, itmax, msub, "linear prediction" if lp else "no prediction", faults, acc, rejected,
+                             "ends in a state that is not bit-wise the same (fields %r)" % diff if acc2 == acc else "does not accept them as they are (it accepts %r)" % (acc2,)),
+                         {"steps": steps, "mSubSteps": msub, "iterMax": itmax, "linear_prediction": lp, "acceleration": alg, "faults": faults, "accepted": acc,
+                          "faulty": res[i], "direct": l2, "how": "echo '%s' | <props/C50 driver>" % line(*runs[i])}, True)
+            continue
+        if (diff or acc2 != acc) and nrep < 3:
+            nrep += 1
+            c.report("nrun:%d:%d:%d:%s:%s:%s" % (msub, itmax, lp, alg, ",".join("%s-%s" % st for st in steps), ",".join("%d.%d" % ft for ft in faults)),
+                     "GenericSolver::execute, Newton branch (2 unknowns, iterMax=%d, mSubSteps=%d, %s, acceleration %s) over %r with the behaviour failing at (attempt, pass) %r "
+                     "accepted the steps %r after %d rejections; a direct run over these steps %s: fields %r (faulty %r, direct %r)" % (
+                         itmax, msub, "linear prediction" if lp else "no prediction", alg, steps, faults, acc, rejected,
+                         "ends in a different state" if acc2 == acc else "does not accept them as they are (%r)" % (acc2,), diff,
+                         {n: val(a) for n, a in zip(names, df) if n in diff}, {n: val(b) for n, b in zip(names, dd) if n in diff}),
+                     {"steps": steps, "mSubSteps": msub, "iterMax": itmax, "linear_prediction": lp, "acceleration": alg, "faults": faults, "accepted": acc,
+                      "faulty": res[i], "direct": l2, "how": "echo '%s' | <props/C50 driver>" % line(*runs[i])}, True)
+        if i == 0:
+            c.sample({"newton_run": {"steps": steps, "faults": faults, "iterMax": itmax}, "faulty": res[i][:300], "direct": l2[:300]})
+    return (len(runs), nrej, len(idx))
+
+
+def stage_accel(c, exe):
+    """each acceleration algorithm: passes of a rejected attempt, then a new attempt, against a fresh object"""
+    rng = c.rng
+    cases = []
+    for alg in ALGOS:
+        for k in range(c.pick(12, 100)):
+            n, nj, nr = rng.randint(1, 3), rng.randint(1, 9), rng.randint(3, 12)
+            sc = rng.choice([1.0, 1e-3, 1e3])
+            data = [[rng.uniform(-1, 1) * sc * (0.5 ** (j % 6)) for _ in range(3 * n)] for j in range(nj + nr)]
+            cases.append((alg, n, nj, nr, data))
+    rc, out, err = c.run([exe], input="\n".join("ACC %s %d %d %d %s" % (alg, n, nj, nr, " ".join(x.hex() for row in data for x in row)) for alg, n, nj, nr, data in cases) + "\n", timeout=600)
+    res = [l for l in out.splitlines() if l[:2] in ("H ", "X ", "E ")]
+    if rc != 0 or len(res) != len(cases):
+        c.report("driver-acc", "driver failed on the acceleration algorithms (rc=%d, %d answers for %d): %s" % (rc, len(res), len(cases), err[-400:]), {"stderr": err[-3000:]}, False)
+        return 0, set()
+    seen, errs = set(), set()
+    for (alg, n, nj, nr, data), l in zip(cases, res):
+        c.count(1, ("acc", alg, n, nj, nr, tuple(data[0])), True)
+        if l[0] != "H":
+            if alg not in errs:
+                errs.add(alg)
+                c.report("acc:%s:error" % alg, "acceleration algorithm %s: %s" % (alg, l[:300]), {"algorithm": alg, "n": n, "data": data}, True)
+            continue
+        a, b = l[2:].split("|")
+        a, b = a.split(), b.split()
+        if a != b and alg not in seen:
+            seen.add(alg)
+            k = next(i for i, (x, y) in enumerate(zip(a, b)) if x != y)
+            c.report(K_STALE % alg, "acceleration algorithm %s (%d unknowns): after the %d passes of a rejected attempt, pass %d of the next attempt returns %s whereas a fresh "
+                     "object fed with the same passes returns %s: the history of the rejected attempt is read" % (alg, n, nj, k // n + 1, a[k], b[k]),
+                     {"algorithm": alg, "unknowns": n, "passes_of_the_rejected_attempt": data[:nj], "passes_of_the_next_attempt (u1 increment, du, r)": data[nj:],
+                      "stale": a, "fresh": b}, True)
+    return len(cases), seen
+
+
+def gen_mtest_problem(rng, idx):
+    """a bisection-mode problem on a dyadic time grid whose behaviour fails (time step limit) or does not converge within iterMax"""
+    for _ in range(50):
+        pb = mtstage.gen_problem(rng, idx)
+        if pb.get("dyn") or not (pb.get("dtmax") or pb.get("itmax")):
+            continue
+        pb["name"] = "f%03d" % idx
+        u = rng.random()
+        if u < 0.3 and pb["beh"] == "VNorton":
+            pb["accel"] = rng.choice(["Cast3M", "Secant", "IronsTuck", "Steffensen", "UAnderson", "FAnderson"])
+            pb["stiffness"] = "Elastic"
+            pb["itmax"] = rng.choice([8, 12, 20])
+            pb["msub"] = 10
+        elif u < 0.5:
+            pb["prediction"] = "LinearPrediction"
+        return pb
+    return pb
+
+
+def stage_mtest(c):
+    c.repo_build(["mtest", "mfront"])
+    lib = mtlib.build_behaviours(c)
+    tmtest = mtlib.build_tree_mtest(c)
+    rng = c.rng
+    wd = os.path.join(c.work, "mtest")
+    pbs = [gen_mtest_problem(rng, i) for i in range(c.pick(30, 250))]
+    ncmp = nrej = nrep = 0
+    for pb in pbs:
+        for who, exe in (("real", mtlib.real_mtest()), ("tree", tmtest)):
+            d = os.path.join(wd, who)
+            os.makedirs(d, exist_ok=True)
+            text = mtlib.write_problem(os.path.join(d, pb["name"] + ".mtest"), pb, lib)
+            rc, o = mtlib.run(c, exe, d, pb["name"])
+            rows = mtlib.parse_res(os.path.join(d, pb["name"] + ".res"))
+            per, its, sub, ok = mtlib.summary(o)
+            c.count(1, ("mtest", who, text), bool(ok and sub))
+            if not (ok and rc == 0 and rows):
+                continue
+            raw = [l.split() for l in open(os.path.join(d, pb["name"] + ".res")) if l.strip() and not l.startswith("#")]
+            dpb = dict(pb, name=pb["name"] + "_direct", times=[r[0] for r in rows])
+            dtext = mtlib.write_problem(os.path.join(d, dpb["name"] + ".mtest"), dpb, lib)
+            rc2, o2 = mtlib.run(c, exe, d, dpb["name"])
+            per2, its2, sub2, ok2 = mtlib.summary(o2)
+            try:
+                raw2 = [l.split() for l in open(os.path.join(d, dpb["name"] + ".res")) if l.strip() and not l.startswith("#")]
+            except OSError:
+                raw2 = []
+            ncmp += 1
+            nrej += sub or 0
+            bad = None
+            if not (ok2 and rc2 == 0) or sub2:
+                bad = "the direct run over the accepted times %s" % ("needs %d sub-steps itself" % sub2 if ok2 else "fails: " + o2[-300:])
+            elif raw2 != raw:
+                k = next((i for i, (a, b) in enumerate(zip(raw, raw2)) if a != b), min(len(raw), len(raw2)))
+                bad = "the direct run over the accepted times differs from row %d on (time %s): faulty %s / direct %s" % (
+                    k, raw[k][0] if k < len(raw) else "-", " ".join(raw[k][:9]) if k < len(raw) else "-", " ".join(raw2[k][:9]) if k < len(raw2) else "-")
+            if bad and nrep < 3:
+                nrep += 1
+                c.report("mtest:%s:%s" % (who, pb["name"]), "%s mtest on\n%s\naccepted the times %r after %d rejected attempts; %s" % (who, text, [r[0] for r in rows], sub or 0, bad),
+                         {"mtest_file": text, "direct_mtest_file": dtext, "binary": exe}, True)
+            if pb["name"] == "f000":
+                c.sample({"mtest_problem": text, "binary": who, "accepted_times": [r[0] for r in rows], "rejected_attempts": sub, "identical_to_direct_run": bad is None})
+    return (len(pbs), ncmp, nrej)
 
 
 guarded_main("C50", main)
